@@ -24,6 +24,16 @@ class Inner:
         return len(d)
 
     def recv(self, n):
+        # an unbuffered socket: at most the first arrived segment, possibly fewer bytes than asked for
+        if isinstance(self.inbox, list):
+            if not self.inbox:
+                return b''
+            seg = self.inbox[0]
+            if n >= len(seg):
+                self.inbox.pop(0)
+                return seg
+            self.inbox[0] = seg[n:]
+            return seg[:n]
         r, self.inbox = self.inbox[:n], self.inbox[n:]
         return r
 
@@ -70,14 +80,19 @@ def run(ctx):
         for o in order:
             seq.append(('s', next(si)) if o == 's' else next(ri))
         outs = []
+        # incoming ciphertext arrives as segments; every wrapper call asks for MORE than the next segment
+        # holds (short reads, as on a real socket): one call must consume and decrypt exactly one segment
+        inner.inbox = [c for k, c in seq if k != 's' and c]
         for kind, chunk in seq:
             if kind == 's':
                 before = len(inner.sent)
                 sw.send(chunk)
                 outs.append(b''.join(inner.sent[before:]))
+            elif not chunk:
+                outs.append(b'')
             else:
-                inner.inbox = chunk
-                got = sw.recv(len(chunk)) if kind == 'r' else fw.read(len(chunk))
+                ask = len(chunk) + rng.choice([0, 1, 7, 4096])
+                got = sw.recv(ask) if kind == 'r' else fw.read(ask)
                 outs.append(got)
         lines.append('chan %s %s' % (hx(secret), ' '.join('%s:%s' % (k, hx(c)) for k, c in seq)))
         recs.append((secret, seq, outs, plain, incoming_plain, incoming_ct))
@@ -108,6 +123,52 @@ def run(ctx):
         if bad:
             ctx.violation(bad, {'secret': hx(secret), 'ops': [(k, hx(c)) for k, c in seq][:40]},
                           key={'secret': hx(secret), 'n_ops': len(seq)})
+    # ---- the REAL installation point: LoginReactor.react on an encryption request, then the inbound
+    # stream consumed through BOTH installed wrappers (socket.recv and file_object.read) in a mixed partition
+    import simnet
+    from refserver import RefServer
+    import minecraft.networking.connection as C
+    for trial in range(ctx.scale(6, 40)):
+        cfg = {'version': 757, 'script': [('encrypt', 'srv', b'tok%d' % trial)], 'rsa': rng.choice(['1024', '2048'])}
+        with simnet.Net(lambda s_: RefServer(s_, cfg)) as net:
+            conn = C.Connection('h', 1, username='u', allowed_versions={757}, handle_exception=lambda e, i: None)
+            conn.connect()
+            net.run_threads()                      # login start -> encryption request -> response; then idle
+            srv = cfg['servers'][0]
+            ctx.case(('install', trial), sample={'installation': 'LoginReactor', 'key': cfg['rsa']})
+            if srv.secret is None or type(conn.socket).__name__ != 'EncryptedSocketWrapper':
+                ctx.violation('encryption was not installed after the encryption request',
+                              {'trial': trial}, key={'kind': 'install'})
+                continue
+            plain_in = bytes(rng.randrange(256) for _ in range(rng.choice([40, 300, 1500])))
+            net.sockets[0].inbox.feed(srv.enc.update(plain_in))
+            got = b''
+            try:
+                while len(got) < len(plain_in):
+                    n = rng.choice([1, 2, 5, 16, 17, 100])
+                    piece = conn.socket.recv(n) if rng.random() < 0.5 else conn.file_object.read(n)
+                    if not piece:
+                        break
+                    got += piece
+            except simnet.Stall:
+                ctx.violation('a wrapper read blocks for bytes that have not been sent (it asked the inner '
+                              'stream again after a short read)', {'received': len(got)}, key={'kind': 'install-stall'})
+            plain_out = bytes(rng.randrange(256) for _ in range(200))
+            fsock = net.sockets[0]
+            fsock.server = None                     # just record what reaches the wire from now on
+            before = len(fsock.sent)
+            for part in partition(rng, plain_out):
+                if part:
+                    conn.socket.send(part)
+            wire_out = bytes(fsock.sent[before:])
+            if got != plain_in:
+                ctx.violation('after the real installation point, the inbound stream read through socket.recv '
+                              'and file_object.read does not decrypt as one CFB8 stream',
+                              {'first_bad_offset': next((i for i, (a, b) in enumerate(zip(got, plain_in)) if a != b), len(got))},
+                              key={'kind': 'install-recv'})
+            if refcodec.CFB8(srv.secret, encrypt=False).update(wire_out) != plain_out:
+                ctx.violation('after the real installation point, sent bytes are not CFB8(secret) of the plaintext',
+                              {}, key={'kind': 'install-send'})
     # ---- AES block function itself: Lean vs cryptography vs refcodec
     from cryptography.hazmat.primitives.ciphers import Cipher, algorithms, modes
     blocks = [(bytes(rng.randrange(256) for _ in range(16)), bytes(rng.randrange(256) for _ in range(16)))
